@@ -115,7 +115,7 @@ def compute_renames(repo, table=None):
         if not os.path.exists(TABLE):
             return {}, []
         table = json.load(open(TABLE))
-    table = {k: v for k, v in table.items() if k != "__types__"}
+    table = {k: v for k, v in table.items() if not k.startswith("__")}
     cur = {q: f for q, f in repo.fns.items() if "@" not in q}
     missing = [q for q in table if q not in cur]
     fresh = [q for q in cur if q not in table]
@@ -355,3 +355,80 @@ def inline_local_closures(data):
         elif isinstance(x, list):
             stack.extend(v for v in x if isinstance(v, (dict, list)))
     return n
+
+
+# ---- type aliases introduced since the reference tree are read as what they stand for ----------------------------------------------
+def expand_new_aliases(data, known_aliases):
+    """`type FollowPos = BTreeMap<Position, RoaringBitmap>;` added by a refactoring: every `ty` / `ret` / `self_ty` string that mentions a
+    NEW alias (one the reference tree does not have) is rewritten to the aliased type, so that rules that look at declared types see
+    what they saw before.  Aliases of the reference tree (StateId, LiteralId, ... carry meaning of their own) are left alone.
+    Generic aliases with type parameters are expanded by textual substitution of the parameters."""
+    aliases = {}
+    stack = [data]
+    while stack:
+        x = stack.pop()
+        if isinstance(x, dict):
+            if x.get("k") == "TypeAlias" and x.get("name") not in known_aliases:
+                params = [g.strip() for g in (x.get("generics") or "").strip().strip("<>").split(",") if g.strip() and not g.strip().startswith("'")]
+                aliases[x["name"]] = (params, " ".join((x.get("ty") or "").split()))
+            stack.extend(v for v in x.values() if isinstance(v, (dict, list)))
+        elif isinstance(x, list):
+            stack.extend(v for v in x if isinstance(v, (dict, list)))
+    if not aliases:
+        return 0
+
+    def expand(t):
+        for _ in range(4):
+            changed = False
+            for name, (params, target) in aliases.items():
+                if not re.search(r"(?<![A-Za-z0-9_])%s(?![A-Za-z0-9_])" % re.escape(name), t):
+                    continue
+                if not params:
+                    t2 = re.sub(r"(?<![A-Za-z0-9_:])%s(?![A-Za-z0-9_])(?!\s*<)" % re.escape(name), target, t)
+                else:
+                    def rep(m):
+                        args = [a.strip() for a in _split_generic(m.group(1))]
+                        out = target
+                        for pn, av in zip(params, args):
+                            out = re.sub(r"(?<![A-Za-z0-9_])%s(?![A-Za-z0-9_])" % re.escape(pn), av, out)
+                        return out
+                    t2 = re.sub(r"(?<![A-Za-z0-9_:])%s\s*<((?:[^<>]|<[^<>]*>)*)>" % re.escape(name), rep, t)
+                if t2 != t:
+                    t, changed = t2, True
+            if not changed:
+                break
+        return t
+
+    n = 0
+    stack = [data]
+    while stack:
+        x = stack.pop()
+        if isinstance(x, dict):
+            if x.get("k") != "TypeAlias":
+                for key in ("ty", "ret", "self_ty"):
+                    if isinstance(x.get(key), str) and x[key]:
+                        t2 = expand(x[key])
+                        if t2 != x[key]:
+                            x[key] = t2
+                            n += 1
+            stack.extend(v for v in x.values() if isinstance(v, (dict, list)))
+        elif isinstance(x, list):
+            stack.extend(v for v in x if isinstance(v, (dict, list)))
+    return n
+
+
+def _split_generic(s):
+    parts, d, cur = [], 0, ""
+    for ch in s:
+        if ch == "<":
+            d += 1
+        elif ch == ">":
+            d -= 1
+        if ch == "," and d == 0:
+            parts.append(cur)
+            cur = ""
+        else:
+            cur += ch
+    if cur.strip():
+        parts.append(cur)
+    return parts
